@@ -102,7 +102,7 @@ pub const ELEM_CLASSES: &[NameClass] = &[
     },
     NameClass {
         tag: "trap",
-        names: &["text", "text_content", "foo_1", "type_attr", "r_type", "text_1", "a_attr", "foo_attr", "Text", "a_1", "a_type", "foo_2", "foo-2", "foo.1", "a_2", "text_content_1"],
+        names: &["text", "text_content", "foo_1", "type_attr", "r_type", "text_1", "a_attr", "foo_attr", "Text", "a_1", "a_type", "foo_2", "foo-2", "foo.1", "a_2", "text_content_1", "foo_3", "a_3"],
     },
     NameClass { tag: "nonascii", names: &["é", "Ж", "жж", "λ", "名", "ñu", "Éa", "жЖ", "名前", "über", "ab名前", "é名前", "Идентификатор"] },
     NameClass { tag: "digit", names: &["a1", "a2b", "x10", "A1", "b2", "a1b2", "h1", "H1"] },
@@ -118,7 +118,7 @@ pub const ELEM_CLASSES: &[NameClass] = &[
 ];
 
 pub const ATTR_CLASSES: &[NameClass] = &[
-    NameClass { tag: "plain", names: &["a", "b", "id", "name", "c", "lang", "x", "y", "z", "k"] },
+    NameClass { tag: "plain", names: &["a", "b", "id", "name", "c", "lang", "x", "y", "z", "k", "ab", "ba", "abc", "ref", "idref"] },
     NameClass { tag: "prefixed", names: &["ns:a", "x:id", "xsi:type", "xml:lang", "p:q", "ns:name", "x:y", "xmlñs:a"] },
     NameClass { tag: "multicolon", names: &["a:b:c"] },
     NameClass { tag: "xmlns", names: &["xmlns", "xmlns:ns", "xmlns:x", "xmlns:xsi", "xmlns:p"] },
@@ -132,7 +132,7 @@ pub const ATTR_CLASSES: &[NameClass] = &[
     NameClass { tag: "std", names: &["String", "string", "Option", "Vec"] },
     NameClass {
         tag: "trap",
-        names: &["text", "text_content", "foo_1", "type_attr", "r_type", "a_attr", "foo_attr", "text_attr", "a_1", "a_attr_1", "b_attr", "foo_2", "foo_attr_1", "foo_attr_2", "a_2"],
+        names: &["text", "text_content", "foo_1", "type_attr", "r_type", "a_attr", "foo_attr", "text_attr", "a_1", "a_attr_1", "b_attr", "foo_2", "foo_attr_1", "foo_attr_2", "a_2", "foo_3", "foo_attr_3"],
     },
     NameClass { tag: "nonascii", names: &["é", "Ж", "λ", "名", "ñu", "über", "ab名前", "é名前", "Идентификатор"] },
     NameClass { tag: "digit", names: &["a1", "x10", "A1", "b2"] },
